@@ -31,7 +31,7 @@ DEAD = "sensor_level > 2000"
 LIVE = "sensor_level >= 0"
 
 
-N_KINDS = 20
+N_KINDS = 23
 
 
 def _cint(rng, d):
@@ -68,7 +68,7 @@ def const_expr(rng):
 
 def site(rng, k):
     """A fold site: returns dict(kind, decl(var form), use_lit, use_var, var, mutate(value-change line), finding keys)."""
-    kinds = ["sleep", "brightness", "blink", "len-str", "len-list", "flash-pattern", "glyph", "rgb", "fade", "ultra-model", "servo-bounds", "range-count", "expr-fold", "const-arith", "param-shadow", "led-rebind", "swap-fold", "aug-fold", "twin-literals", "remove-dup"]
+    kinds = ["sleep", "brightness", "blink", "len-str", "len-list", "flash-pattern", "glyph", "rgb", "fade", "ultra-model", "servo-bounds", "range-count", "expr-fold", "const-arith", "param-shadow", "led-rebind", "swap-fold", "aug-fold", "twin-literals", "remove-dup", "reset-same-const", "single-pass-for", "len-arg-twice"]
     assert len(kinds) == N_KINDS
     kind = kinds[k % len(kinds)]
     v = f"v{k}"
@@ -126,6 +126,33 @@ def site(rng, k):
         p1, p2 = rng.choice([(6, 8), (16, 17)])
         use = f"ld{k} = Led({p1})\nld{k}.on()\nsleep(2)\nld{k} = Led({p2 - 2} + 2)\nld{k}.on()\nld{k}.off()"
         lit = f"la{k} = Led({p1})\nla{k}.on()\nsleep(2)\nlb{k} = Led({p2})\nlb{k}.on()\nlb{k}.off()"
+        return dict(kind=kind, var=v, decl=f"{v} = 0", lit=lit, use=use, expr=use, mut=None, mut_lit=None, whole=True)
+    if kind == "reset-same-const":
+        # a name set back to the constant it was initialised with, after a block (taken at run time) changed it: all stores count
+        a, d = rng.choice([(5, 2), (0, 7), (40, 1)])
+        blk = rng.choice([f"if {LIVE}:\n    r{k} = r{k} + {d}", f"for q{k} in range(1):\n    r{k} = r{k} + {d}", f"w{k} = 1\nwhile w{k} > 0:\n    w{k} -= 1\n    r{k} += {d}"])
+        use = f"r{k} = {a}\n{blk}\nmon.write(r{k})\nsleep(r{k} + 1)\nr{k} = {a}\nmon.write(r{k})\nsleep(r{k} + 1)\nled.set_brightness(r{k})"
+        lit = f"mon.write({a + d})\nsleep({a + d + 1})\nmon.write({a})\nsleep({a + 1})\nled.set_brightness({a})"
+        return dict(kind=kind, var=v, decl=f"{v} = 0", lit=lit, use=use, expr=use, mut=None, mut_lit=None, whole=True)
+    if kind == "single-pass-for":
+        # a counted loop whose count folds to 1, left through a conditional break, inside another loop: same as with a run-time count
+        cnt = rng.choice(["1", "3 - 2", 'len("x")', "2 // 2"])
+        body = "    for i{k} in range({c}):\n        mon.write(o{k})\n        if o{k} >= {t}:\n            break\n        mon.write(\"tail\")\n    mon.write(\"after\")\n    sleep(o{k} + 1)"
+        t = rng.choice([0, 1])
+        use = f"for o{k} in range(3):\n" + body.format(k=k, c=cnt, t=t)
+        lit = f"one{k} = analog_read(1) + 1\nfor o{k} in range(3):\n" + body.format(k=k, c=f"one{k}", t=t)
+        return dict(kind=kind, var=v, decl=f"{v} = 0", lit=lit, use=use, expr=use, mut=None, mut_lit=None, whole=True)
+    if kind == "len-arg-twice":
+        # the same argument text twice in one block with the list changed in between: each call sees the length at its own time
+        n0 = rng.choice([2, 3])
+        wrap = rng.choice(["if {c}:\n{b}", "def run{k}():\n{b}\n    return 0\nz{k} = run{k}()", "for q{k} in range(1):\n{b}", "{b0}"])
+        lines = [f"led.set_brightness(len(xs{k}) * 40)", "sleep(len(xs{k}) + 1)".format(k=k), f"xs{k}.append(9)", f"led.set_brightness(len(xs{k}) * 40)", "sleep(len(xs{k}) + 1)".format(k=k),
+                 f"rgb.set_color(len(xs{k}) * 40, 1, 2)"]
+        lits = [f"led.set_brightness({n0 * 40})", f"sleep({n0 + 1})", f"led.set_brightness({(n0 + 1) * 40})", f"sleep({n0 + 2})", f"rgb.set_color({(n0 + 1) * 40}, 1, 2)"]
+        def w(ls):
+            return wrap.format(c=LIVE, k=k, b="\n".join("    " + l for l in ls), b0="\n".join(ls))
+        use = f"xs{k} = {list(range(1, n0 + 1))}\n" + w(lines)
+        lit = w(lits).replace(f"run{k}", f"run{k}")
         return dict(kind=kind, var=v, decl=f"{v} = 0", lit=lit, use=use, expr=use, mut=None, mut_lit=None, whole=True)
     if kind == "swap-fold":
         # after a parallel assignment the transpile-time view of the names must be the swapped one
@@ -369,7 +396,7 @@ def main() -> int:
         if not rep.counters.get("compared:" + k[5:]):
             rep.inconclusive_because(f"fold site {k[5:]}: no pair reached the four-way comparison (all rejected or discarded)")
     witness.check_witnesses(rep)
-    rep.rule = ("pairs (P, P') over 17 fold sites (sleep, brightness, blink, len of str, len of list, flash pattern, glyph bitmap, RGB colour, fade duration/steps, "
+    rep.rule = ("pairs (P, P') over 23 fold sites (reset to the initial constant, single-pass loop with break, the same len() argument twice around a mutation, sleep, brightness, blink, len of str, len of list, flash pattern, glyph bitmap, RGB colour, fade duration/steps, "
                 "ultrasonic model name, servo bounds, range count, arithmetic) x transformations {literal -> variable, literal -> name-free expression, mutation "
                 "in a branch never taken at run time, mutation in a loop run 0 times, mutation in a branch always taken (vs the program written with the new "
                 "literal)}, in setup() or the main loop; branch conditions read a scripted analog input so the folder cannot decide them. All four executions must "
